@@ -175,7 +175,9 @@ class PandasMissingValueFeatureGroup(MissingValueFeatureGroup):
             return result.fillna(constant_value)
 
         # Group the data
-        grouped = data.groupby(group_by_features)
+        # dropna=False: rows with a missing key form a group of their own (as in the PythonDict implementation)
+        # instead of being dropped, which made transform() return NaN for them - also for their non-missing cells
+        grouped = data.groupby(group_by_features, dropna=False)
 
         if imputation_method == "mean":
             # Calculate mean for each group
